@@ -911,8 +911,29 @@ func (fc *FCtx) execFor(s *ast.ForStmt, st *State, label string) *Flow {
 	}
 	ls := fc.loopSpec(ord)
 	bodyPos := s.Body.Lbrace + 1
-	fc.checkInvs("inv-establish", ord, ls, st, nil, bodyPos)
+	// a counting loop `for i := c; i < X; i++` whose body leaves i alone is a range loop written by hand: the same
+	// proof clauses apply to it (#i is i), and i stays within [c, X] (so that turning a range loop into an index loop -
+	// or back - is not a reason for its invariants to stop applying)
+	idx, idxLo, idxHi := fc.countingLoop(s)
+	spOf := func(state *State) loopSpecials {
+		if idx == nil {
+			return nil
+		}
+		v, ok := state.vars[idx]
+		if !ok {
+			return nil
+		}
+		return fc.withOuter(loopSpecials{"#i": v})
+	}
+	fc.checkInvs("inv-establish", ord, ls, st, spOf(st), bodyPos)
 	lv := fc.modifiedIn(s.Body)
+	if idx != nil {
+		for _, o := range lv.objs {
+			if o == idx {
+				idx = nil // the body assigns the counter itself: not a counting loop
+			}
+		}
+	}
 	if s.Post != nil {
 		lv2 := fc.modifiedIn(s.Post)
 		lv.objs = append(lv.objs, lv2.objs...)
@@ -948,7 +969,24 @@ func (fc *FCtx) execFor(s *ast.ForStmt, st *State, label string) *Flow {
 	}
 	h := st.clone()
 	fc.havoc(h, lv)
-	fc.assumeInvs(ord, ls, h, nil, bodyPos)
+	if idx != nil {
+		// inductive by construction: i starts at c, the body does not assign it, the post statement adds one while i < X
+		if iv, ok := h.vars[idx]; ok {
+			if idxLo != nil {
+				if lo, ok := fc.tryEvalInt(idxLo, st); ok {
+					h.assume(fmt.Sprintf("(>= %s %s)", iv.T, lo))
+				}
+			}
+			if idxHi != nil && !fc.mentionsAny(idxHi, lv.objs) {
+				if lo, ok := fc.tryEvalInt(idxLo, st); ok {
+					if hi, ok := fc.tryEvalInt(idxHi, h); ok {
+						h.assume(fmt.Sprintf("(or (<= %s %s) (= %s %s))", iv.T, hi, iv.T, lo))
+					}
+				}
+			}
+		}
+	}
+	fc.assumeInvs(ord, ls, h, spOf(h), bodyPos)
 	if ls == nil || ls.Decreases == nil {
 		fc.termination = append(fc.termination, fmt.Sprintf("loop %d at %s: termination not proved", ord, fc.pos(s.Pos())))
 	}
@@ -960,7 +998,12 @@ func (fc *FCtx) execFor(s *ast.ForStmt, st *State, label string) *Flow {
 	}
 	x := b.clone() // exit state shares obligations assumed while evaluating cond
 	b.assume(cond)
+	prevSpFor := fc.curSpecials
+	if sp := spOf(b); sp != nil {
+		fc.curSpecials = sp
+	}
 	fb := fc.execBlock(s.Body.List, b)
+	fc.curSpecials = prevSpFor
 	ends := append([]*State{}, fb.normal...)
 	ends = append(ends, fb.cont[""]...)
 	delete(fb.cont, "")
@@ -974,7 +1017,7 @@ func (fc *FCtx) execFor(s *ast.ForStmt, st *State, label string) *Flow {
 			e = fc.merge(fp.normal)
 		}
 		if e != nil {
-			fc.checkInvs("inv-preserve", ord, ls, e, nil, bodyPos)
+			fc.checkInvs("inv-preserve", ord, ls, e, spOf(e), bodyPos)
 			fc.curGhostSet = lv.ghostSet
 			fc.checkLoopFrame(ord, h, e, bodyPos)
 			fc.curGhostSet = nil
@@ -1231,6 +1274,93 @@ func (fc *FCtx) checkExhaustive(ord int, ls *LoopSpec, fb *Flow, x *State, label
 		// no break in the body: discharged on the spot, and on record - a break added later fails THIS obligation
 		fc.obligeNamed(x, fmt.Sprintf("exhaustive#loop%d", ord), "assert", "true", "loop "+fmt.Sprint(ord)+" visits every element: the body has no break", bodyPos)
 	}
+}
+
+// countingLoop recognises `for i := lo; i < hi; i++` (also `i += 1`): the counter's object and the two bound expressions.
+func (fc *FCtx) countingLoop(s *ast.ForStmt) (types.Object, ast.Expr, ast.Expr) {
+	as, ok := s.Init.(*ast.AssignStmt)
+	if !ok || as.Tok != token.DEFINE || len(as.Lhs) != 1 || len(as.Rhs) != 1 {
+		return nil, nil, nil
+	}
+	id, ok := as.Lhs[0].(*ast.Ident)
+	if !ok {
+		return nil, nil, nil
+	}
+	obj := fc.info().Defs[id]
+	if obj == nil {
+		return nil, nil, nil
+	}
+	if b, ok := obj.Type().Underlying().(*types.Basic); !ok || b.Info()&types.IsInteger == 0 {
+		return nil, nil, nil
+	}
+	isI := func(e ast.Expr) bool {
+		x, ok := unparen(e).(*ast.Ident)
+		return ok && fc.info().Uses[x] == obj
+	}
+	switch p := s.Post.(type) {
+	case *ast.IncDecStmt:
+		if p.Tok != token.INC || !isI(p.X) {
+			return nil, nil, nil
+		}
+	case *ast.AssignStmt:
+		lit, isLit := p.Rhs[0].(*ast.BasicLit)
+		if p.Tok != token.ADD_ASSIGN || len(p.Lhs) != 1 || !isI(p.Lhs[0]) || !isLit || lit.Value != "1" {
+			return nil, nil, nil
+		}
+	default:
+		return nil, nil, nil
+	}
+	c, ok := unparen(s.Cond).(*ast.BinaryExpr)
+	if s.Cond == nil || !ok || c.Op != token.LSS || !isI(c.X) {
+		return nil, nil, nil
+	}
+	return obj, as.Rhs[0], c.Y
+}
+
+// mentionsAny: does the expression mention one of the objects (variables assigned in a loop body)?
+func (fc *FCtx) mentionsAny(e ast.Expr, objs []types.Object) bool {
+	found := false
+	ast.Inspect(e, func(n ast.Node) bool {
+		if id, ok := n.(*ast.Ident); ok {
+			for _, o := range objs {
+				if fc.info().Uses[id] == o {
+					found = true
+				}
+			}
+		}
+		if _, ok := n.(*ast.CallExpr); ok {
+			if ce := n.(*ast.CallExpr); !isLenCall(ce) {
+				found = true // a call other than len(): not a fixed bound
+			}
+		}
+		return !found
+	})
+	return found
+}
+
+func isLenCall(ce *ast.CallExpr) bool {
+	id, ok := ce.Fun.(*ast.Ident)
+	return ok && id.Name == "len" && len(ce.Args) == 1
+}
+
+// tryEvalInt evaluates a side-effect-free integer expression, giving up (ok = false) on anything outside the subset.
+func (fc *FCtx) tryEvalInt(e ast.Expr, st *State) (t string, ok bool) {
+	defer func() {
+		if r := recover(); r != nil {
+			if _, isO := r.(OutOfSubset); isO {
+				t, ok = "", false
+				return
+			}
+			panic(r)
+		}
+	}()
+	nObl := len(fc.Obls)
+	v := fc.eval(e, st.clone())
+	fc.Obls = fc.Obls[:nObl]
+	if v.S.Kind != KInt {
+		return "", false
+	}
+	return v.T, true
 }
 
 func elemType(t types.Type) types.Type {
